@@ -291,11 +291,13 @@ class SSHConfig:
         for host_entry in hosts.keys():
             host_list = host_entry.split()
             for host_pattern in host_list:
-                # replace periods with literal period
                 # replace asterisk (match 0 or more things) with appropriate regex
                 # replace question mark (match one thing) with appropriate regex
-                cleaned_host_pattern = (
-                    host_pattern.replace(".", r"\.").replace("*", r"(.*)").replace("?", r"(.)")
+                # escape everything else so that it only ever matches itself (periods, but also
+                # brackets, plus signs, etc. that would otherwise be treated as regex syntax)
+                cleaned_host_pattern = "".join(
+                    r"(.*)" if char == "*" else r"(.)" if char == "?" else re.escape(char)
+                    for char in host_pattern
                 )
                 # compile with case insensitive
                 search_pattern = re.compile(cleaned_host_pattern, flags=re.I)
